@@ -93,4 +93,9 @@ LEVEL["C09"] = {
     "design_ref": "DESIGN.md 4/C09", "note": _TOKNOTE, "technique": "Lean 4 proof (round trip by induction over rows and fields from per-token lemmas) + correspondence check",
 }
 
+LEVEL["C03"] = {
+    "text": "Lean theorems for every entry point of the model: parsing terminates with a coded result; every accepted program evaluates to a value or an error (no stack underflow, no failing assertion) for all managers and variable assignments; operators, conversions and functions never panic; all four tokenizers under all option sets produce a complete token list without running out of loop fuel; decoding is total; templates parse with a coded result and a parsed template always renders. Tied to the code by the panic-site inventory regenerated from the source on every run and by exhaustive/soup streams that classify every call as value / error / panic / neither / both / hang.",
+    "design_ref": "DESIGN.md 4/C03", "note": _NOTE + " Process-level failures (stack exhaustion, out of memory) are not modelled.", "technique": "Lean 4 proof (totality / fuel-sufficiency theorems assembled from the parser, evaluator, value, tokenizer and mustache developments) + panic-site inventory + correspondence check",
+}
+
 NOT_APPLICABLE = {}
